@@ -184,9 +184,7 @@ theorem exec_good {p p' : Paint} {name : String} {ps : List Int} (hg : Good p) (
       · -- FilledRectangle
         exact hg.of_keeps (fillRect_keeps hg.fill (lift_state h))
       · -- TimeAPause
-        split at h
-        · simp [XOut.state?] at h
-        · rw [← hok h]; exact hg
+        rw [← hok h]; exact hg
       · -- PolymarkerPlot
         exact hg.of_keeps (drawPolyMarker_keeps hg.line (lift_state h))
       · -- TextEffects
